@@ -137,6 +137,14 @@ def searchsortedAll (idx : List Int) (length : Nat) : List Int :=
 /-- `0 <= i < n` for every index (specification of "in bounds") -/
 def inRange (idx : List Int) (n : Nat) : Bool := idx.all fun i => decide (0 ≤ i) && decide (i < (n : Int))
 
+/-- specification of `compress_indices`: sorted, in-range index vectors are compressed to their
+`searchsorted` positions; everything else is an error of the documented class -/
+def compressSpec (idx : List Int) (n : Nat) : Except CErr (List Int) :=
+  if monotone idx && inRange idx n then .ok (searchsortedAll idx n)
+  else match idx.head?, idx.getLast? with
+    | some a, some l => if a < 0 || l ≥ (n:Int) then .error .bounds else .error .notMonotone
+    | _, _ => .error .bounds
+
 /-- outcome of `assemble_coo`: `compress_indices` may raise `ValueError`, `assemble_csr` may raise `MatrixError` -/
 inductive CooOut
   | valueError (e : CErr)
@@ -178,8 +186,7 @@ def ofRows (L : List Row) (nc : Nat) : CSR :=
     ncols := nc }
 
 /-- the rows of a CSR triple -/
-def toRows (m : CSR) : List Row :=
-  List.zipWith List.zip (slicesBy m.rowptr m.colidx) (slicesBy m.rowptr m.values)
+def toRows (m : CSR) : List Row := slicesBy m.rowptr (List.zip m.colidx m.values)
 
 /-- dense meaning of one row: entry j is the sum of the listed values with column j (specification) -/
 def rowDense (r : Row) (nc : Nat) : List Int :=
@@ -210,11 +217,11 @@ def searchsortedLeft (l : List Int) (x : Int) : Nat := (l.filter (· < x)).lengt
 column slice, take the value there if the column matches, else 0 -/
 def csrDiagonal (m : CSR) : List Int :=
   (List.range (nrows m)).map fun (irow : Nat) =>
-    let lo := (m.rowptr.getD irow 0).toNat
-    let hi := (m.rowptr.getD (irow+1) 0).toNat
-    let icols := (m.colidx.drop lo).take (hi - lo)
+    let lo := m.rowptr.getD irow 0
+    let hi := m.rowptr.getD (irow+1) 0
+    let icols := (m.colidx.drop lo.toNat).take (hi - lo).toNat
     let idiag := searchsortedLeft icols (irow : Int)
-    if idiag < icols.length && icols.getD idiag 0 == (irow : Int) then m.values.getD (lo + idiag) 0 else 0
+    if idiag < icols.length && icols.getD idiag 0 == (irow : Int) then m.values.getD (lo.toNat + idiag) 0 else 0
 
 /-- `Matrix.rowsupp(tol)` of the base class (code model): `supp[row[abs(data) > tol]] = True` on the COO export -/
 def cooRowsupp (coo : List (Nat × Int × Int)) (nr : Nat) (tol : Nat) : List Bool :=
@@ -246,26 +253,28 @@ deriving Repr, BEq
 
 def Block.csr (b : Block) : CSR := { values := b.values, rowptr := b.rowptr, colidx := b.colidx, ncols := b.ncols }
 
-/-- Python index normalisation for slicing a sequence of length `n` -/
-def pyIdx (n : Nat) (i : Int) : Nat := if i < 0 then (i + (n : Int)).toNat else min i.toNat n
+/-- Python `l[i:j]` for `0 ≤ i`, `j ≤ len(l)` (guaranteed by the per-block row pointer check) -/
+def pySlice {α : Type} (l : List α) (i j : Int) : List α := (l.drop i.toNat).take (j - i).toNat
 
-/-- Python `l[i:j]` -/
-def pySlice {α : Type} (l : List α) (i j : Int) : List α :=
-  (l.drop (pyIdx l.length i)).take (pyIdx l.length j - pyIdx l.length i)
-
-inductive BErr | rowSizes | dtype | colSizes | noBlocks
+/-- `rowSizes`, `dtype`, `colSizes` are the three `assert`s (AssertionError); `blockRowptr`, `blockColidx` are the
+per-block `MatrixError`s; `noBlocks` stands for the IndexError on an empty block list -/
+inductive BErr | rowSizes | dtype | colSizes | noBlocks | blockRowptr | blockColidx
 deriving Repr, BEq, DecidableEq
 
 /-- a non-empty block of the current block row with its column offset applied: (values, rowptr, colidx + col_offset) -/
 abbrev BData := List Int × List Int × List Int
 
-/-- the first loop over a block row: assertions, skipping of empty blocks, column offsets.
+/-- the first loop over a block row: assertions, per-block validation (`block_rowptr[0] == 0`, monotone,
+`block_rowptr[-1] == len(block_values) == len(block_colidx)`; column indices inside `[0, block_ncols)`),
+skipping of empty blocks, column offsets.
 Returns the `block_data` list and the final `col_offset`. -/
 def collectRow (nr : Nat) (dt : Nat) : List Block → Nat → Except BErr (List BData × Nat)
   | [], off => .ok ([], off)
   | b :: t, off =>
     if b.rowptr.length - 1 != nr || b.rowptr.length == 0 then .error .rowSizes
     else if b.dt != dt then .error .dtype
+    else if !(rowptrOK b.rowptr b.values.length && b.colidx.length == b.values.length) then .error .blockRowptr
+    else if !colRangeOK b.colidx b.ncols then .error .blockColidx
     else do
       let (rest, off') ← collectRow nr dt t (off + b.ncols)
       if b.values.length != 0 then
